@@ -5,6 +5,7 @@ package gen
 
 import (
 	"fmt"
+	"strings"
 
 	"verifsim/internal/model"
 	"verifsim/internal/rng"
@@ -53,6 +54,7 @@ type Config struct {
 	MaxElif         int
 	BigNumbers      bool // literals >= 256 / >= 65536, long identifiers
 	Vals            []int
+	DriveDeep       bool // stress shape whose depth is only reached under a friendly game state
 }
 
 type gen struct {
@@ -336,6 +338,10 @@ func (g *gen) text() model.Arg {
 	} else {
 		words := []string{"Hello", "there", "PLAYER", "{STR_VAR_1}", "you", "won", "x", "go on"}
 		a.Text = words[r.Intn(len(words))] + fmt.Sprintf(" %d", len(g.texts))
+		if g.c.BigNumbers && r.P(0.3) {
+			// one very long word
+			a.Text = fmt.Sprintf("%d", len(g.texts)) + strings.Repeat("W", r.Range(250, 300))
+		}
 		if r.P(0.2) {
 			a.Text += "$"
 		}
@@ -397,6 +403,9 @@ func (g *gen) command() *model.Cmd {
 	c := &model.Cmd{Name: []string{"op", "msg", "setv", "apply"}[r.Intn(4)]}
 	c.Args = append(c.Args, model.Arg{Toks: []string{fmt.Sprintf("N%d", id)}})
 	n := r.Intn(3)
+	if (g.c.Big || g.c.BigNumbers) && r.P(0.2) {
+		n = r.Range(7, 12)
+	}
 	for i := 0; i < n; i++ {
 		switch {
 		case r.P(g.c.PText):
@@ -423,6 +432,9 @@ func (g *gen) autoCmd() *model.Cmd {
 	g.nCmd++
 	c := &model.Cmd{Name: name}
 	nargs := r.Intn(3)
+	if (g.c.Big || g.c.BigNumbers) && r.P(0.25) {
+		nargs = r.Range(8, 12)
+	}
 	if av.ArgPos >= 0 && nargs < av.ArgPos+1 {
 		nargs = av.ArgPos + 1 + r.Intn(2)
 	}
@@ -939,4 +951,210 @@ func containsSpace(s string) bool {
 		}
 	}
 	return false
+}
+
+// ---------------------------------------------------------------------------------
+// Stress shapes: programs built to cross thresholds that random growth rarely reaches
+// (nesting depth >= 9, >= 65 cases, >= 18 leaves, >= 100 chunks, long elif chains).
+
+// StressFile draws one stress-shaped file. The rest of the configuration (names, leaf
+// forms, AutoVars ...) comes from c.
+func StressFile(r *rng.R, c *Config) *model.File {
+	g := &gen{r: r, c: c, f: &model.File{}, left: 1 << 30}
+	if c.AutoVars {
+		g.f.AutoVars = map[string]model.AutoVar{}
+		g.f.AutoVars["av0"] = model.AutoVar{VarName: "VAR_RESULT", ArgPos: -1}
+		g.f.AutoVars["av1"] = model.AutoVar{ArgPos: 0}
+		g.autoCmds = []string{"av0", "av1"}
+	}
+	cmd := func() *model.Stmt { return &model.Stmt{K: model.KCmd, Cmd: g.command()} }
+	small := func() *model.Expr { return g.exprN(r.Range(1, 2)) }
+	var body []*model.Stmt
+	switch r.Intn(6) {
+	case 0:
+		// deep nest of breakable scopes with sibling scopes and jumps at every level
+		depth := r.Range(6, 16)
+		c.DriveDeep = true
+		// per-file mix of scope kinds: some nests are nearly all switches, some nearly all loops
+		kindW := []int{r.Intn(4), r.Intn(3), r.Intn(2), r.Intn(5)}
+		if kindW[0]+kindW[1]+kindW[3] == 0 {
+			kindW[3] = 1
+		}
+		plain := small
+		small = func() *model.Expr {
+			// mostly bare flags, so that a game state with most flags set walks down the nest
+			if r.P(0.8) {
+				return &model.Expr{Op: model.OLeaf, Leaf: &model.Leaf{Kind: model.LFlag, Name: g.flagName(), Form: model.FBare}}
+			}
+			return plain()
+		}
+		var build func(d int, inLoop bool) []*model.Stmt
+		build = func(d int, inLoop bool) []*model.Stmt {
+			out := []*model.Stmt{cmd()}
+			if d == 0 {
+				if r.Bool() {
+					out = append(out, &model.Stmt{K: model.KBreak})
+				} else if inLoop {
+					out = append(out, &model.Stmt{K: model.KContinue})
+				}
+				return out
+			}
+			sibs := 1
+			if r.P(0.4) {
+				sibs = 2
+			}
+			for s := 0; s < sibs; s++ {
+				var st *model.Stmt
+				switch pick(r, kindW) {
+				case 0:
+					st = &model.Stmt{K: model.KWhile, Cond: small(), Body: build(d-1, true)}
+				case 1:
+					st = &model.Stmt{K: model.KDoWhile, Cond: small(), Body: build(d-1, true)}
+				case 2:
+					// an 'if' is not a break-able scope: it does not count towards the depth
+					st = &model.Stmt{K: model.KIf, Conds: []*model.Expr{small()}, Bodies: [][]*model.Stmt{build(d, inLoop)}}
+					if r.Bool() {
+						st.HasElse = true
+						st.Else = []*model.Stmt{cmd()}
+					}
+				default:
+					sw := &model.Switch{Var: g.varName()}
+					// (the nested body may end in 'continue', which must be the last statement
+					// before '}': the case that holds it is written last)
+					if r.Bool() {
+						sw.Cases = append(sw.Cases, &model.Case{Default: true, Body: []*model.Stmt{cmd()}})
+					}
+					if r.P(0.3) {
+						sw.Cases = append(sw.Cases, &model.Case{Value: "2"})
+					}
+					sw.Cases = append(sw.Cases, &model.Case{Value: "1", Body: build(d-1, inLoop)})
+					st = &model.Stmt{K: model.KSwitch, Sw: sw}
+				}
+				out = append(out, st)
+				if r.P(0.3) {
+					out = append(out, cmd())
+				}
+			}
+			if r.P(0.3) {
+				// a jump after the nested scopes of this level (binds to THIS level's scope)
+				if r.Bool() && (inLoop || d < depth) {
+					if d < depth {
+						out = append(out, &model.Stmt{K: model.KIf, Conds: []*model.Expr{small()}, Bodies: [][]*model.Stmt{{&model.Stmt{K: model.KBreak}}}})
+					}
+				} else if inLoop {
+					out = append(out, &model.Stmt{K: model.KIf, Conds: []*model.Expr{small()}, Bodies: [][]*model.Stmt{{&model.Stmt{K: model.KContinue}}}})
+				}
+			}
+			return out
+		}
+		// the outermost level must be a loop so that break/continue always have a scope
+		body = []*model.Stmt{{K: model.KWhile, Cond: small(), Body: build(depth-1, true)}, cmd()}
+	case 1:
+		// wide switch
+		n := r.Range(20, 90)
+		sw := &model.Switch{Var: g.varName()}
+		def := -1
+		if r.P(0.7) {
+			def = r.Intn(n + 1)
+		}
+		pEmpty := r.Float() * 0.7
+		for i := 0; i <= n; i++ {
+			cs := &model.Case{}
+			if i == def {
+				cs.Default = true
+			} else if i == n && def < 0 {
+				break
+			} else {
+				cs.Value = fmt.Sprint(i)
+			}
+			if !r.P(pEmpty) {
+				cs.Body = []*model.Stmt{cmd()}
+				if r.P(0.2) {
+					cs.Body = append(cs.Body, &model.Stmt{K: model.KBreak})
+				}
+			}
+			sw.Cases = append(sw.Cases, cs)
+		}
+		c.Dom = n + 2
+		c.Vals = nil
+		body = []*model.Stmt{cmd(), {K: model.KSwitch, Sw: sw}, cmd()}
+	case 2:
+		// long boolean chain with mixed operators and right / left nesting
+		n := r.Range(12, 30)
+		var e *model.Expr
+		switch r.Intn(3) {
+		case 0:
+			e = g.exprN(n)
+		case 1:
+			// right spine: a1 op (a2 op (a3 ...)) printed without redundant parentheses where possible
+			e = &model.Expr{Op: model.OLeaf, Leaf: g.leaf()}
+			for i := 1; i < n; i++ {
+				op := model.OOr
+				if r.P(0.3) {
+					op = model.OAnd
+				}
+				e = &model.Expr{Op: op, L: &model.Expr{Op: model.OLeaf, Leaf: g.leaf()}, R: e}
+			}
+		default:
+			e = &model.Expr{Op: model.OLeaf, Leaf: g.leaf()}
+			for i := 1; i < n; i++ {
+				op := model.OOr
+				if r.P(0.3) {
+					op = model.OAnd
+				}
+				e = &model.Expr{Op: op, L: e, R: &model.Expr{Op: model.OLeaf, Leaf: g.leaf()}}
+			}
+		}
+		st := &model.Stmt{K: model.KIf, Conds: []*model.Expr{e}, Bodies: [][]*model.Stmt{{cmd()}}, HasElse: true, Else: []*model.Stmt{cmd()}}
+		if r.P(0.3) {
+			st = &model.Stmt{K: model.KWhile, Cond: e, Body: []*model.Stmt{cmd()}}
+		}
+		body = []*model.Stmt{st, cmd()}
+	case 3:
+		// long elif chain
+		n := r.Range(6, 24)
+		st := &model.Stmt{K: model.KIf}
+		for i := 0; i < n; i++ {
+			st.Conds = append(st.Conds, small())
+			if r.P(0.15) {
+				st.Bodies = append(st.Bodies, nil)
+			} else {
+				st.Bodies = append(st.Bodies, []*model.Stmt{cmd()})
+			}
+		}
+		if r.Bool() {
+			st.HasElse = true
+			st.Else = []*model.Stmt{cmd()}
+		}
+		body = []*model.Stmt{st, cmd()}
+	case 4:
+		// many sequential constructs: scripts that split into > 64, > 128 chunks
+		n := r.Range(20, 70)
+		for i := 0; i < n; i++ {
+			switch r.Intn(4) {
+			case 0:
+				body = append(body, &model.Stmt{K: model.KIf, Conds: []*model.Expr{small()}, Bodies: [][]*model.Stmt{{cmd()}}})
+			case 1:
+				body = append(body, &model.Stmt{K: model.KIf, Conds: []*model.Expr{small()}, Bodies: [][]*model.Stmt{{cmd()}}, HasElse: true, Else: []*model.Stmt{cmd()}})
+			case 2:
+				body = append(body, &model.Stmt{K: model.KWhile, Cond: small(), Body: []*model.Stmt{cmd()}})
+			default:
+				body = append(body, cmd())
+			}
+		}
+	default:
+		// many scripts, each with some control flow and hoisted data (counters, labels >= 10)
+		n := r.Range(6, 14)
+		for i := 0; i < n; i++ {
+			b := []*model.Stmt{cmd(), {K: model.KIf, Conds: []*model.Expr{small()}, Bodies: [][]*model.Stmt{{cmd()}}}}
+			g.f.Scripts = append(g.f.Scripts, &model.Script{Name: fmt.Sprintf("S%d", i), Body: b})
+		}
+		return g.f
+	}
+	g.f.Scripts = []*model.Script{{Name: "S0", Body: body}}
+	if r.P(0.3) {
+		// a second copy of the shape in another script: per-script state must not leak
+		g.f.Scripts = append(g.f.Scripts, &model.Script{Name: "S1", Body: body})
+	}
+	return g.f
 }
